@@ -152,22 +152,16 @@ def rep_values(type_, slot, alt, reps):
 
 
 def fillers(type_, key):
-    """two simple filler keywords of the same object, different from `key`"""
+    """two simple filler keywords of the same object, different from `key` (any simple value shape will do)"""
     out = []
-    for k, s in vocab.slots(type_).items():
-        if k == key or k in ("include", "symbol", "style", "type"):
+    for k, sl in vocab.slots(type_).items():
+        if k == key or k in ("include", "symbol", "style", "type", "backgroundshadowsize"):
             continue
-        a = s.alts[0]
-        if len(s.alts) == 1 and a.shape in ("string", "integer", "number", "boolean") and not a.node.get("maxLength"):
-            lo, hi, lx, hx = a.bounds()
-            if a.shape == "string":
-                v = ("str", "f")
-            elif a.shape == "boolean":
-                v = ("bool", True)
-            else:
-                x = (lo if lo is not None else 1) + (1 if lx else 0)
-                v = ("int", int(x))
-            out.append(["attr", k, v[0], v[1]])
+        a = sl.alts[0]
+        if a.shape in ("string", "integer", "number", "boolean", "enum", "numlist", "hex") and not a.node.get("maxLength"):
+            vals = rep_values(type_, sl, a, 1)
+            if vals and len(vals[0]) == 1 and vals[0][0][0] == "attr" and not (vals[0][0][2] == "str" and a.shape == "enum"):
+                out.append(vals[0][0])
         if len(out) == 2:
             break
     return out
